@@ -7,7 +7,8 @@ Ev == Log[l]
 MaxOf(s) == LET S == {s[i] : i \in 1..Len(s)} IN CHOOSE m \in S : \A t \in S : t <= m
 TraceInit == TLCSet(1, 1) /\ l = 1 /\ ys = <<>>
 NewYs == CASE Ev.ev = "Init" -> Ev.ys [] Ev.ev = "Add" -> Append(ys, Ev.y) [] OTHER -> ys
-Valid == CASE Ev.ev = "Init" -> Ev.n = Len(Ev.ys) /\ Ev.gp_n = Len(Ev.ys) /\ Ev.mu_max = MaxOf(Ev.ys) /\ Ev.caller_unchanged
+Valid == CASE Ev.ev = "Init" -> /\ Ev.n = Len(Ev.ys) /\ Ev.gp_n = Len(Ev.ys) /\ Ev.mu_max = MaxOf(Ev.ys) /\ Ev.caller_unchanged
+                               /\ (IF "acq_ok" \in DOMAIN Ev THEN Ev.acq_ok ELSE TRUE)      \* the optimiser's acquisition is the one it was configured with
            [] Ev.ev = "Propose" -> Ev.inside /\ Ev.n = Len(ys) /\ Ev.caller_unchanged            \* every proposal inside the search bounds
            [] Ev.ev = "Add" -> /\ Ev.n = Len(ys) + 1 /\ Ev.gp_n = Len(ys) + 1                     \* the next model is fitted to the data including the new point
                                /\ Ev.last_y = Ev.y /\ Ev.last_x_ok
